@@ -286,3 +286,15 @@ Theorem C01_next_nopanic_from_source :
     if rd + n >? GoSem.blen buf then ([], GoSem.Err_io_EOF, buf, rd) else (GoSem.slice_range buf rd (rd + n), 0, buf, rd + n).
 Proof. exact GenThriftskipProofs.next_nopanic_is_take. Qed.
 Print Assumptions C01_next_nopanic_from_source.
+
+(* the amount ThriftWire.skip drops for a container of fixed-size elements (sz * es, sz * (ks + vs)) is the amount SkipGo's fast paths
+   hand to skipn in the source (gen/Gen_thriftskipfast.v) *)
+From DG Require Gen_thriftskipfast.
+Theorem C01_SkipGo_fast_paths_from_source :
+  (forall vt sz, 0 <= vt < 256 -> 0 <= sz < 2 ^ 31 ->
+     Gen_thriftskipfast.SkipGo_list_fast vt sz = (Gen_thriftskipfast.Out_return, [(Gen_thriftskipfast.Eff_skipn, [sz * fixed_size vt])])) /\
+  (forall kt vt sz, 0 <= kt < 256 -> 0 <= vt < 256 -> 0 <= sz < 2 ^ 31 ->
+     Gen_thriftskipfast.SkipGo_map_fast sz (Gen_thriftskipfast.typeSize kt) (Gen_thriftskipfast.typeSize vt)
+       = (Gen_thriftskipfast.Out_return, [(Gen_thriftskipfast.Eff_skipn, [sz * (fixed_size kt + fixed_size vt)])])).
+Proof. exact GenThriftskipProofs.SkipGo_fast_paths_exact. Qed.
+Print Assumptions C01_SkipGo_fast_paths_from_source.
